@@ -4,8 +4,8 @@ C12 — theorems over the tables regenerated from the live implementation on eve
 implementation uses for `\s \i \c \d` are, code point for code point, the sets the specification
 names (XSD 1.1 part 2 G.4.2.5, XML 1.0 NameStartChar / NameChar, category Nd), and no table
 behind a negated escape is empty (the side condition of `charclass_denote_partial`).
-`\w` (806 ranges against the complement of P ∪ Z ∪ C) exceeds what the kernel evaluates in
-reasonable time; it is compared on all range boundaries by the harness instead (not a theorem).
+`\w` (806 ranges against the complement of P ∪ Z ∪ C) is proved through a translator-emitted
+tiling certificate (`impl_esc_w_eq_spec`).
 -/
 import EPV.Lemmas.RegexClass
 import EPV.Gen.C12Tables
@@ -50,5 +50,132 @@ theorem tables_nonempty :
     (EPV.Gen.C12.blocks.all fun t => !(SetE.ranges t.2).isEmpty) = true ∧
     ([EPV.Gen.C12.escS, EPV.Gen.C12.escD, EPV.Gen.C12.escW, EPV.Gen.C12.escI, EPV.Gen.C12.escC].all
       fun t => !(SetE.ranges t).isEmpty) = true := by decide +kernel
+
+/-! ### `\w`: certificate-based equality (the symmetric-difference evaluation is too slow in the kernel)
+
+The translator emits `wTiling`: the ranges of `escW` (tag 0) and of the categories P, Z, C (tags 1-3)
+interleaved by start.  The kernel checks (all linear) that the list tiles `[0, maxunicode]` without gap
+or overlap and projects back onto the four tables; `tiles_partition` then gives the complement. -/
+
+abbrev TEntry := Nat × Nat × Nat
+
+/-- consecutive entries tile `[a, b)`: each starts where the previous one ended and is non-empty -/
+def tilesB : Nat → List TEntry → Nat → Bool
+  | a, [], b => a == b
+  | a, (lo, hi, _) :: rest, b => lo == a && decide (lo < hi) && tilesB hi rest b
+
+def inEntry (x : Nat) (e : TEntry) : Bool := decide (e.1 ≤ x) && decide (x < e.2.1)
+
+/-- `x` lies in an entry tagged `0` / in an entry with another tag -/
+def memTag0 (x : Nat) (l : List TEntry) : Bool := l.any fun e => e.2.2 == 0 && inEntry x e
+def memOther (x : Nat) (l : List TEntry) : Bool := l.any fun e => e.2.2 != 0 && inEntry x e
+
+theorem tiles_lo_ge : ∀ (l : List TEntry) (a b : Nat), tilesB a l b = true → ∀ e ∈ l, a ≤ e.1 := by
+  intro l
+  induction l with
+  | nil => intro a b _ e he; cases he
+  | cons h t ih =>
+    intro a b ht e he
+    obtain ⟨lo, hi, tg⟩ := h
+    simp only [tilesB, Bool.and_eq_true, beq_iff_eq, decide_eq_true_eq] at ht
+    obtain ⟨⟨rfl, hlt⟩, hrest⟩ := ht
+    rcases List.mem_cons.1 he with rfl | he
+    · exact Nat.le_refl _
+    · have := ih hi b hrest e he
+      omega
+
+/-- inside a tiling every point of `[a, b)` is in an entry tagged 0 or in one tagged otherwise, never both -/
+theorem tiles_partition : ∀ (l : List TEntry) (a b : Nat), tilesB a l b = true → ∀ x, a ≤ x → x < b →
+    memTag0 x l = !memOther x l := by
+  intro l
+  induction l with
+  | nil =>
+    intro a b ht x h1 h2
+    simp only [tilesB, beq_iff_eq] at ht
+    omega
+  | cons h t ih =>
+    intro a b ht x h1 h2
+    obtain ⟨lo, hi, tg⟩ := h
+    have ht' := ht
+    simp only [tilesB, Bool.and_eq_true, beq_iff_eq, decide_eq_true_eq] at ht
+    obtain ⟨⟨rfl, hlt⟩, hrest⟩ := ht
+    simp only [memTag0, memOther, List.any_cons]
+    by_cases hx : x < hi
+    · -- in the head entry; no later entry contains x
+      have hin : inEntry x (lo, hi, tg) = true := by simp [inEntry, h1, hx]
+      have hnone : ∀ (f : TEntry → Bool), (t.any fun e => f e && inEntry x e) = false := by
+        intro f
+        apply Bool.eq_false_iff.2
+        intro hh
+        obtain ⟨e, he, hh⟩ := List.any_eq_true.1 hh
+        have := tiles_lo_ge t hi b hrest e he
+        simp only [Bool.and_eq_true, inEntry, decide_eq_true_eq] at hh
+        omega
+      rw [hnone (fun e => e.2.2 == 0), hnone (fun e => e.2.2 != 0), hin]
+      cases htg : (tg == 0) <;> simp [htg, bne]
+    · have hout : inEntry x (lo, hi, tg) = false := by simp [inEntry]; omega
+      have := ih hi b hrest x (by omega) h2
+      simp only [memTag0, memOther] at this
+      rw [hout, this]
+      simp
+
+def proj (t : Nat) (l : List TEntry) : List (Nat × Nat) := (l.filter fun e => e.2.2 == t).map fun e => (e.1, e.2.1)
+
+theorem memR_proj (t : Nat) (l : List TEntry) (x : Nat) :
+    memR x (proj t l) = l.any fun e => e.2.2 == t && inEntry x e := by
+  induction l with
+  | nil => rfl
+  | cons e l ih =>
+    simp only [proj, List.filter_cons, List.any_cons]
+    cases h : (e.2.2 == t)
+    · simp only [Bool.false_eq_true, if_false, Bool.false_and, Bool.false_or]
+      exact ih
+    · simp only [if_true, List.map_cons, Bool.true_and]
+      unfold memR at ih ⊢
+      simp only [List.any_cons]
+      rw [← ih]
+      rfl
+
+def catTbl (name : String) : List (Nat × Nat) :=
+  ((EPV.Gen.C12.cats.find? (·.1 == name)).map (·.2)).getD []
+
+/-- the certificate checks, by kernel evaluation over the regenerated tables (all linear) -/
+theorem w_certificate :
+    tilesB 0 EPV.Gen.C12.wTiling maxCP1 = true ∧
+    (EPV.Gen.C12.wTiling.all fun e => e.2.2 ≤ 3) = true ∧
+    proj 0 EPV.Gen.C12.wTiling = EPV.Gen.C12.escW ∧
+    proj 1 EPV.Gen.C12.wTiling = catTbl "P" ∧
+    proj 2 EPV.Gen.C12.wTiling = catTbl "Z" ∧
+    proj 3 EPV.Gen.C12.wTiling = catTbl "C" := by decide +kernel
+
+
+theorem memOther_split (l : List TEntry) (x : Nat) (h : (l.all fun e => e.2.2 ≤ 3) = true) :
+    memOther x l = ((l.any fun e => e.2.2 == 1 && inEntry x e) || (l.any fun e => e.2.2 == 2 && inEntry x e)
+      || (l.any fun e => e.2.2 == 3 && inEntry x e)) := by
+  induction l with
+  | nil => rfl
+  | cons e l ih =>
+    simp only [List.all_cons, Bool.and_eq_true, decide_eq_true_eq] at h
+    have ih' := ih h.2
+    simp only [memOther] at ih' ⊢
+    simp only [List.any_cons, ih']
+    obtain ⟨lo, hi, tg⟩ := e
+    have : tg = 0 ∨ tg = 1 ∨ tg = 2 ∨ tg = 3 := by
+      have := h.1; simp at this; omega
+    rcases this with rfl | rfl | rfl | rfl <;> simp [bne] <;> cases inEntry x (lo, hi, _) <;> simp [Bool.or_comm, Bool.or_assoc]
+
+/-- the implementation's `\w` subset (`w_shortcut` = L ∪ M ∪ N ∪ S tables merged) is, on every
+code point, the XSD definition `[#x0-#x10FFFF]-[\p{P}\p{Z}\p{C}]` over the installed category tables -/
+theorem impl_esc_w_eq_spec (x : Nat) (hx : x < maxCP1) :
+    (SetE.ranges EPV.Gen.C12.escW).mem x =
+      (SetE.diff .all (.union (.ranges (catTbl "P")) (.union (.ranges (catTbl "Z")) (.ranges (catTbl "C"))))).mem x := by
+  obtain ⟨ht, htag, h0, h1, h2, h3⟩ := w_certificate
+  have hp := tiles_partition _ 0 maxCP1 ht x (Nat.zero_le _) hx
+  simp only [SetE.mem, all_mem, hx, decide_true, Bool.true_and]
+  rw [← h0, ← h1, ← h2, ← h3, memR_proj, memR_proj, memR_proj, memR_proj]
+  have hs := memOther_split _ x htag
+  simp only [memTag0] at hp
+  rw [hp, hs, Bool.or_assoc]
+
 
 end EPV.C12
